@@ -522,6 +522,12 @@ pub fn run(run: &mut Run, args: &Args) {
         }
         if rt::same_outcome(&ob, &oa, chain.ordered, SchemaLevel::TypesExact).is_ok() {
             judge_case(run, &df_plan, &sql_plan, &[&ds], chain.ops.len() >= 2);
+            // the same question for the OPTIMISED plans of both sides (the optimizer removes the
+            // `SELECT *` identity projections every SQL step adds, so these are often `same`)
+            if let (Ok(a), Ok(b)) = (ctx.state().optimize(&df_plan), ctx2.state().optimize(&sql_plan)) {
+                run.count("optimised_pairs");
+                judge_case(run, &a, &b, &[&ds], chain.ops.len() >= 2);
+            }
         } else {
             run.count("judge_skipped_oracle_failed");
         }
